@@ -15,7 +15,8 @@ package pubsub
 
 // A validator's verdict is Accept, Reject or Ignore; any other value is treated as Ignore.
 //@ func (*validatorImpl).validateMsg
-//@   property C04
+//@   property C04 C12
+//@   safe
 //@   dynpure validate cancel
 //@   noframe
 //@   ensures range: result == ValidationAccept || result == ValidationReject || result == ValidationIgnore
@@ -144,7 +145,8 @@ package pubsub
 // asynchronous validation keep it, so it must not share storage with v.defaultVals or with the
 // set of another message, and computing it must not disturb any existing storage.
 //@ func (*validation).getValidators
-//@   property C04
+//@   property C04 C12
+//@   safe
 //@   requires msg: msg != nil
 //@   modifies monitor(validation.mx)
 //@   ensures defaults-first: len(result) == len(v.defaultVals) + ite(topicOf(msg) in v.topicVals, 1, 0) &&
